@@ -16,8 +16,8 @@ func init() {
 
 type cacheSpec struct {
 	Type, Map, List, Max, Remove, Update string
-	Expiry                              string // field of the entry type holding the expiry
-	TTL                                 string
+	Expiry                               string // field of the entry type holding the expiry
+	TTL                                  string
 }
 
 func runC21(c *Ctx) {
